@@ -264,7 +264,10 @@ class GPMultiFidelitySearcher(GPFIFOSearcher):
 
     def remove_case(self, trial_id: str, **kwargs):
         resource = kwargs[self._resource_attr]
-        self.state_transformer.remove_observed_case(trial_id, key=str(resource))
+        # The case may not be there: ``_update`` rejects NaN or infinite
+        # metric values
+        if self.state_transformer.state.is_labeled(trial_id, resource=int(resource)):
+            self.state_transformer.remove_observed_case(trial_id, key=str(resource))
 
     def clone_from_state(self, state):
         # Create clone with mutable state taken from 'state'
